@@ -1871,6 +1871,10 @@ bool TypeChecker::isTypeAssignableFromOtherType(
     otherTy = valueTypeOf(otherTy);
 
     return ((isArithmeticType(ty) && isArithmeticType(otherTy))
+            // A pointer is converted to _Bool (6.5.16.1-1, 6.3.1.2).
+            || (ty->kind() == TypeKind::Basic
+                && ty->asBasicType()->kind() == BasicTypeKind::Bool
+                && otherTy->kind() == TypeKind::Pointer)
             || (isStructureOrUnionType(ty)
                 && typesAreCompatible(ty, otherTy, false, false))
             || (ty->kind() == TypeKind::Pointer
